@@ -1,11 +1,11 @@
 package main
 
 import (
-	"math/rand"
 	"bytes"
 	"encoding/binary"
 	"fmt"
 	"io"
+	"math/rand"
 	"strings"
 
 	"github.com/Eyevinn/mp4ff/bits"
@@ -406,7 +406,7 @@ func checkSizeFieldsFile(enc []byte) string {
 }
 
 func modelCase(c *Ctx, which string, bs []byte) {
-	if len(bs) < 8 || len(bs) > 4096 || !modelledBoxes[string(bs[4:8])] {
+	if len(bs) < 8 || len(bs) > 4096 || !modelledBoxes[string(bs[4:8])] || !exactBox(bs) {
 		return
 	}
 	req := "box.rt " + hx(bs)
@@ -1513,4 +1513,20 @@ func genTopLevelEdits(c *Ctx, which string, files [][]byte, names []string) {
 			c.Count("top-level-edit")
 		}
 	}
+}
+
+// exactBox: the size the header declares (32-bit, or 64-bit behind size 1) is the length of the byte string. The model
+// answers for exactly one box; DecodeBox on a longer string reads the declared size and ignores what follows.
+func exactBox(bs []byte) bool {
+	if len(bs) < 8 {
+		return false
+	}
+	sz := uint64(binary.BigEndian.Uint32(bs))
+	if sz == 1 {
+		if len(bs) < 16 {
+			return true // rejected by both
+		}
+		sz = binary.BigEndian.Uint64(bs[8:])
+	}
+	return sz == uint64(len(bs)) || sz < 8
 }
